@@ -11,7 +11,7 @@ to .work/seeded-replays/<id>/ (they describe the patched tree, not /repo's)."""
 import glob, json, os, shutil, subprocess, sys, time
 
 VERIF = os.path.dirname(os.path.dirname(os.path.abspath(__file__)))
-REPO = "/repo"
+REPO = "/repo"  # --repo <scratch worktree> applies the patches there instead (and runs ./check with VERIF_REPO)
 
 
 def sh(cmd, **kw):
@@ -42,10 +42,14 @@ def run_one(sid, checks, tier, root="seeded"):
         shutil.copytree(ev, ev_bak)
     sh(["git", "-C", REPO, "apply", patch])
     try:
-        before = set(glob.glob(os.path.join(VERIF, "replays", "*")))
+        rdir = os.path.join(VERIF, "replays") if REPO == "/repo" else os.path.join(VERIF, ".work", "alt-" + REPO.strip("/").replace("/", "_"), "replays")
+        before = set(glob.glob(os.path.join(rdir, "*")))
         for c in checks:
             t0 = time.time()
-            r = sh([os.path.join(VERIF, "check"), c, "--tier", tier], cwd=VERIF)
+            env = dict(os.environ)
+            if REPO != "/repo":
+                env["VERIF_REPO"] = REPO
+            r = sh([os.path.join(VERIF, "check"), c, "--tier", tier], cwd=VERIF, env=env)
             lines = [l for l in r.stdout.splitlines() if l.startswith("VIOLATION") or l.startswith("KNOWN-FINDING") or l.startswith("HARNESS-ERROR")]
             info = {"exit": r.returncode, "wall_s": round(time.time() - t0, 1), "lines": [l[:300] for l in lines]}
             info["violations"] = []
@@ -60,7 +64,7 @@ def run_one(sid, checks, tier, root="seeded"):
                         info["violations"].append({"engine": "?", "replay": p})
             results[c] = info
             print(f"{sid}: {c} -> exit {r.returncode} {info.get('class','')} ({info['wall_s']}s)", flush=True)
-        after = set(glob.glob(os.path.join(VERIF, "replays", "*")))
+        after = set(glob.glob(os.path.join(rdir, "*")))
         dest = os.path.join(VERIF, ".work", "seeded-replays", sid)
         os.makedirs(dest, exist_ok=True)
         for p in after - before:
@@ -82,7 +86,12 @@ def run_one(sid, checks, tier, root="seeded"):
 
 
 def main():
+    global REPO
     a = sys.argv[1:]
+    if "--repo" in a:
+        i = a.index("--repo")
+        REPO = a[i + 1]
+        del a[i:i + 2]
     tier = "quick"
     if "--tier" in a:
         i = a.index("--tier")
